@@ -1605,9 +1605,8 @@ EXPORT int _vsnprintf_s_chk(char *restrict dest, rsize_t dmax,
         }
     }
     // catch %n early, before it outputs anything
-    if (unlikely((p = strnstr(fmt, "%n", RSIZE_MAX_STR)))) {
-        /* at the beginning or if inside, not %%n */
-        if ((p - fmt == 0) || *(p - 1) != '%') {
+    if (unlikely((p = safec_find_percent_n(fmt)))) {
+        { /* any n conversion, whatever flags, width or length modifier */
             handle_error(dest, dmax, "vsnprintf_s: illegal %n", EINVAL);
             return -(EINVAL);
         }
